@@ -23,7 +23,10 @@ cat > "$work/mca_verif.go" <<'GO'
 package region
 
 import (
+	"fmt"
+	"reflect"
 	"sort"
+	"strings"
 	"time"
 )
 
@@ -60,6 +63,91 @@ func VerifFreeKeys(r *Region) []int32 {
 	}
 	sort.Slice(out, func(i, j int) bool { return out[i] < out[j] })
 	return out
+}
+
+// VerifExtraState renders, deterministically, every field of Region other than the device handle and the three
+// tables the state key already reads (offsets, Timestamps, sectors): bookkeeping an edit adds to the struct (a
+// high-water mark, a free count, a cache) then becomes part of the state key by itself, so states that differ only
+// in it are not merged. Pointers, interfaces, channels and functions are rendered by kind and nil-ness only.
+func VerifExtraState(r *Region) string {
+	var b strings.Builder
+	v := reflect.ValueOf(r).Elem()
+	t := v.Type()
+	for i := 0; i < t.NumField(); i++ {
+		switch t.Field(i).Name {
+		case "f", "offsets", "Timestamps", "sectors":
+			continue
+		}
+		b.WriteString(t.Field(i).Name)
+		b.WriteByte('=')
+		verifRender(&b, v.Field(i), 0)
+		b.WriteByte(';')
+	}
+	return b.String()
+}
+
+func verifRender(b *strings.Builder, v reflect.Value, depth int) {
+	if depth > 6 {
+		b.WriteString("...")
+		return
+	}
+	switch v.Kind() {
+	case reflect.Bool:
+		fmt.Fprint(b, v.Bool())
+	case reflect.Int, reflect.Int8, reflect.Int16, reflect.Int32, reflect.Int64:
+		fmt.Fprint(b, v.Int())
+	case reflect.Uint, reflect.Uint8, reflect.Uint16, reflect.Uint32, reflect.Uint64, reflect.Uintptr:
+		fmt.Fprint(b, v.Uint())
+	case reflect.Float32, reflect.Float64:
+		fmt.Fprint(b, v.Float())
+	case reflect.String:
+		fmt.Fprintf(b, "%q", v.String())
+	case reflect.Slice, reflect.Array:
+		if v.Kind() == reflect.Slice && v.IsNil() {
+			b.WriteString("nil")
+			return
+		}
+		b.WriteByte('[')
+		for i := 0; i < v.Len(); i++ {
+			verifRender(b, v.Index(i), depth+1)
+			b.WriteByte(',')
+		}
+		b.WriteByte(']')
+	case reflect.Map:
+		if v.IsNil() {
+			b.WriteString("nil")
+			return
+		}
+		var es []string
+		it := v.MapRange()
+		for it.Next() {
+			var e strings.Builder
+			verifRender(&e, it.Key(), depth+1)
+			e.WriteByte(':')
+			verifRender(&e, it.Value(), depth+1)
+			es = append(es, e.String())
+		}
+		sort.Strings(es)
+		b.WriteString("{" + strings.Join(es, ",") + "}")
+	case reflect.Struct:
+		b.WriteByte('(')
+		for i := 0; i < v.NumField(); i++ {
+			verifRender(b, v.Field(i), depth+1)
+			b.WriteByte(',')
+		}
+		b.WriteByte(')')
+	case reflect.Pointer:
+		if v.IsNil() {
+			b.WriteString("nil")
+			return
+		}
+		b.WriteByte('&')
+		verifRender(b, v.Elem(), depth+1)
+	case reflect.Interface, reflect.Chan, reflect.Func, reflect.UnsafePointer:
+		fmt.Fprintf(b, "%s:%v", v.Kind(), v.IsNil())
+	default:
+		b.WriteString(v.Kind().String())
+	}
 }
 GO
 cat > "$work/overlay.json" <<JSON
